@@ -6,7 +6,7 @@
 patch=$(readlink -f "$1"); tier=$2; shift 2
 wt=$(mktemp -d /tmp/mutrun.XXXXXX)
 git -C /repo worktree add -f --detach "$wt" HEAD -q || exit 3
-if ! git -C "$wt" apply "$patch"; then echo "PATCH DOES NOT APPLY"; git -C /repo worktree remove --force "$wt"; exit 3; fi
+if ! git -C "$wt" apply "$patch" 2>/dev/null && ! git -C "$wt" apply -3 "$patch"; then echo "PATCH DOES NOT APPLY"; git -C /repo worktree remove --force "$wt"; exit 3; fi
 caught=1
 cd /verif
 for c in "$@"; do
